@@ -71,12 +71,21 @@ ValidField(d, f) == /\ f.ranges # <<>>
                     /\ InBounds(d, f)
 Valid(d) == \A j \in 1..Len(d.fields) : ValidField(d, d.fields[j])
 
-(* The statement leaves one corner open: an array of NON-contiguous         *)
-(* elements whose explicit stride is smaller than the element width         *)
-(* (interleaving elements are explicitly allowed by C04 and by the suite).  *)
-(* Such declarations are judged "valid" by the rule above because the       *)
-(* stride>=width clause is only applied to contiguous elements.             *)
-Verdict(d) == IF Valid(d) THEN "accept" ELSE "reject"
+(* The statement leaves two corners open, and the verdict is three-valued so  *)
+(* that the check never demands more than C09 states:                        *)
+(*  - an array of NON-contiguous elements whose explicit stride is smaller    *)
+(*    than the element width: interleaving elements are explicitly allowed    *)
+(*    by C04 and by the suite, so the stride>=width clause is applied to      *)
+(*    contiguous elements only (such declarations are "accept");              *)
+(*  - a range list that names the same bit twice within one element: every    *)
+(*    written clause holds ("type width = number of bits selected" counting   *)
+(*    multiplicity), but C04 puts such lists outside its guarantee and a      *)
+(*    list that gathers more bits than the base has cannot be represented;    *)
+(*    whether they compile is "unspecified" and not judged.                   *)
+DupBits(f) == f.ranges # <<>> /\ RangesOrdered(f) /\ ~Inj(Pos(f, 0))
+Verdict(d) == IF ~Valid(d) THEN "reject"
+              ELSE IF \E j \in 1..Len(d.fields) : DupBits(d.fields[j]) THEN "unspecified"
+              ELSE "accept"
 
 ---------------------------------------------------------------------------
 (* C17: API surface *)
@@ -127,15 +136,23 @@ FinalMask(d)    == MaskAfter(d, Len(WritableIdx(d)))
 
 (* calls: sequence of "with:<name>" / "build" strings, applied to builder() *)
 ChainCanon(d) == [m \in 1..Len(WritableIdx(d)) |-> "with:" \o d.fields[WritableIdx(d)[m]].name] \o <<"build">>
-IsPrefix(s, t) == Len(s) <= Len(t) /\ \A k \in 1..Len(s) : s[k] = t[k]
+PrefixOf(s, t) == Len(s) <= Len(t) /\ \A k \in 1..Len(s) : s[k] = t[k]
+WritableNames(d) == {"with:" \o d.fields[WritableIdx(d)[m]].name : m \in 1..Len(WritableIdx(d))}
 ChainVerdict(d, calls) ==
-  IF ~BuilderSound(d) THEN "must_fail"
-  ELSE IF IsPrefix(calls, ChainCanon(d)) THEN "must_compile"
+  IF ~BuilderSound(d) THEN "must_fail"                                   \* builder() does not exist
+  ELSE IF PrefixOf(calls, ChainCanon(d)) THEN "must_compile"
+  ELSE IF \E k \in 1..Len(calls) : calls[k] # "build" /\ calls[k] \notin WritableNames(d)
+       THEN "must_fail"                                                  \* a step for a field that is not writable
   ELSE IF /\ calls # <<>> /\ calls[Len(calls)] = "build"
-          /\ \E m \in 1..Len(WritableIdx(d)) :
-               ("with:" \o d.fields[WritableIdx(d)[m]].name) \notin Ran(calls)
-       THEN "must_fail"
-  ELSE "unspecified"
+          /\ \E nm \in WritableNames(d) : nm \notin Ran(calls)
+       THEN "must_fail"                                                  \* build() while a writable field is missing
+  ELSE "unspecified"                                                     \* complete but re-ordered / repeated
+
+(* const members that exist only when the builder is offered *)
+BuilderApi(d) == IF BuilderSound(d)
+                 THEN {[m |-> "builder", const |-> TRUE], [m |-> "build", const |-> TRUE]}
+                      \cup {[m |-> "step:" \o d.fields[WritableIdx(d)[m]].name, const |-> TRUE] : m \in 1..Len(WritableIdx(d))}
+                 ELSE {}
 
 InitialValue(d) == IF d.def # <<>> THEN SeqToSet(d.def[1]) ELSE {}
 
